@@ -13,6 +13,8 @@ PID = "C29"
 THEOREM_MODULES = ["GuppyVerif.Props.C29"]
 DRIVER = "C29"
 RULE = (
+    "`hist` = one SourceMap sees a history of 1..6 add_file(name[, content]) calls with repeated names and changed contents "
+    "(linecache-backed and explicit), then renders a snippet: the rows must be those of the LATEST registration (KeyError if never registered); "
     "`tospan` = span.to_span on AST nodes at random byte offsets of lines with multi-byte characters (é 字 ß π € 😀), real vs model, "
     "and vs the character positions the offsets were derived from; `prog` = real Guppy functions through check() whose undefined "
     "name is preceded by non-ASCII strings/identifiers (span must sit on the token; then rendered three-way); further "
@@ -107,7 +109,7 @@ def _span(sp):
 
 def _exc(e: BaseException) -> str:
     n = type(e).__name__
-    return {"AssertionError": "err assertion", "InternalGuppyError": "err internal", "ValueError": "err value"}.get(
+    return {"AssertionError": "err assertion", "InternalGuppyError": "err internal", "ValueError": "err value", "KeyError": "err key"}.get(
         n, "exception:" + n
     )
 
@@ -141,6 +143,8 @@ def _real(req) -> str:
     try:
         if req["kind"] == "tospan":
             return _real_tospan(req)
+        if req["kind"] == "hist":
+            return _real_hist(req)
         if req["kind"] == "wrap":
             return _show(D.wrap(req["text"], req["width"], initial_indent=req["ii"], subsequent_indent=req["si"]))
         sm = SourceMap()
@@ -182,6 +186,42 @@ def _real_tospan(req) -> str:
         linecache.cache.pop(fn, None)
 
 
+def _real_hist(req) -> str:
+    """one SourceMap sees a history of add_file calls (file names repeat, contents change), then renders"""
+    import linecache
+
+    import guppylang_internals.diagnostic as D
+    from guppylang_internals.span import Loc, SourceMap, Span
+
+    sm = SourceMap()
+    touched = set()
+    try:
+        for op in req["ops"]:
+            if op["op"] == "cache":
+                touched.add(op["file"])
+                linecache.cache[op["file"]] = (len(op["text"]), None, op["text"].splitlines(True), op["file"])
+                sm.add_file(op["file"])
+            else:
+                sm.add_file(op["file"], op["text"])
+        r = D.DiagnosticsRenderer(sm)
+        l1, c1, l2, c2 = req["span"]
+        sp = Span(Loc(req["file"], l1, c1), Loc(req["file"], l2, c2))
+        r.render_snippet(sp, req["label"], req["maxln"], bool(req["primary"]), req["prefix"])
+        return _show(r.buffer)
+    finally:
+        for f in touched:
+            linecache.cache.pop(f, None)
+
+
+def _hist_latest(req):
+    """literal reading: the lines of the LATEST registration of the rendered file (None: never registered)"""
+    cur = None
+    for op in req["ops"]:
+        if op["file"] == req["file"]:
+            cur = [l.rstrip() for l in op["text"].splitlines(True)] if op["op"] == "cache" else op["text"].splitlines()
+    return cur
+
+
 # ------------------------------------------------------------------ protocol
 
 
@@ -198,6 +238,16 @@ def _ospan(sp) -> str:
 
 
 def _line(req) -> str:
+    if req["kind"] == "hist":
+        ops = " ".join(
+            f"(cache {_codes(o['file'])} ({' '.join(_codes(l) for l in o['text'].splitlines(True))}))" if o["op"] == "cache"
+            else f"(content {_codes(o['file'])} {_codes(o['text'])})"
+            for o in req["ops"]
+        )
+        return (
+            f"(hist ({ops}) {_codes(req['file'])} {_ospan(req['span'])} {_ostr(req['label'])} {req['maxln']} "
+            f"{int(req['primary'])} {req['prefix']})"
+        )
     if req["kind"] == "tospan":
         return "(tospan (" + " ".join(_codes(l) for l in req["lines"]) + ") (" + " ".join(map(str, req["pos"])) + "))"
     if req["kind"] == "wrap":
@@ -346,6 +396,15 @@ def _oracle(req, real_lines, real_reply, errs):
             errs.append("wrap raised " + real_reply)
             return
         _check_wrapped(req["text"], real_lines, req["width"], req["ii"], req["si"], errs, "wrap")
+        return
+    if req["kind"] == "hist":
+        lines = _hist_latest(req)
+        if lines is None:
+            if real_reply != "err key":
+                errs.append(f"rendering a span of a never registered file gave {real_reply[:80]}")
+            return
+        _check_snippet(real_lines, lines, req["span"], req["label"], req["maxln"], req["primary"], req["prefix"], errs,
+                       "snippet after re-registration")
         return
     lines = req["content"].splitlines()
     if req["kind"] == "snip":
@@ -571,10 +630,30 @@ def _gen_tospan(rng):
     return {"kind": "tospan", "lines": lines, "pos": pos, "expect": None}
 
 
+HIST_FILES = ["<cell-1>", "mod.py", "<cell-2>"]
+
+
+def _gen_hist(rng):
+    ops = []
+    for _ in range(rng.choice([1, 2, 2, 3, 4, 6])):
+        ops.append({"op": rng.choice(["cache", "cache", "content"]), "file": rng.choice(HIST_FILES[:2] if rng.random() < 0.8 else HIST_FILES),
+                    "text": _source(rng)})
+    file = rng.choice([o["file"] for o in ops]) if rng.random() < 0.93 else HIST_FILES[2]
+    # aim the span at the latest text of the file (sometimes at an older, longer one)
+    texts = [o["text"] for o in ops if o["file"] == file] or [_source(rng)]
+    aim = texts[-1] if rng.random() < 0.8 else rng.choice(texts)
+    return {"kind": "hist", "ops": ops, "file": file, "span": _gen_span(rng, [l.rstrip() for l in aim.splitlines()]),
+            "label": _label(rng), "maxln": 1, "primary": rng.random() < 0.5, "prefix": rng.choice([0, 2])}
+
+
 def _gen(rng):
     k = rng.random()
     if k < 0.08:
         return _gen_tospan(rng)
+    if k < 0.16:
+        r = _gen_hist(rng)
+        r["maxln"] = r["span"][2]
+        return r
     if k < 0.3:
         return {
             "kind": "wrap",
@@ -652,6 +731,10 @@ def _nontrivial(req, real_lines):
         return len(real_lines) >= 2
     if req["kind"] == "tospan":
         return not all(l.isascii() for l in req["lines"])
+    if req["kind"] == "hist":
+        # non-trivial: the rendered file was registered at least twice with different texts
+        texts = [o["text"] for o in req["ops"] if o["file"] == req["file"]]
+        return len(set(texts)) >= 2
     lines = req["content"].splitlines()
     spans = []
     if req["kind"] == "snip":
